@@ -1789,9 +1789,10 @@ func (p *Parser) parseLit() ast.Expr {
 	case token.TokenIdent:
 		id := p.Token
 		switch {
-		case id.IsKeywordLike("SAFE_CAST"):
+		// SAFE_CAST and REPLACE_FIELDS are not reserved: without a following "(" they are ordinary identifiers.
+		case id.IsKeywordLike("SAFE_CAST") && p.lookaheadLparen():
 			return p.parseCastExpr()
-		case id.IsKeywordLike("REPLACE_FIELDS"):
+		case id.IsKeywordLike("REPLACE_FIELDS") && p.lookaheadLparen():
 			return p.parseReplaceFieldsExpr()
 		}
 
@@ -1823,6 +1824,17 @@ func (p *Parser) parseLit() ast.Expr {
 	}
 
 	panic(p.errorfAtToken(&p.Token, "unexpected token: %s", p.Token.Kind))
+}
+
+// lookaheadLparen reports whether the token after the current one is "(".
+func (p *Parser) lookaheadLparen() bool {
+	lexer := p.Lexer.Clone()
+	defer func() {
+		p.Lexer = lexer
+	}()
+
+	p.nextToken()
+	return p.Token.Kind == "("
 }
 
 func (p *Parser) lookaheadCallExpr() bool {
